@@ -24,13 +24,24 @@ Clauses == {"HonestNeverSlashable", "RealEquivocationAccepted", "SlashedOnce", "
 Paths == {"seal", "raw", "imp"}
 
 PostOf(e, p) == CASE p = "seal" -> e.seal [] p = "raw" -> e.raw [] OTHER -> e.imp
+PreOf(e) == [vals |-> e.pre.vals, wq |-> e.pre.wq, pen |-> e.pre.pen, blockNo |-> e.parent + 1]
 
 \* ---- observables
 RECURSIVE SumFin(_, _)
 SumFin(q, T) == IF T = {} THEN 0 ELSE LET i == CHOOSE x \in T : TRUE IN q[i][3] + SumFin(q, T \ {i})
 \* unfinished withdraw records of validator v: [validator, delegator, finalBalance, finished, initialBalance]
 Pending(q, v) == SumFin(q, { i \in DOMAIN q : q[i][1] = v /\ q[i][4] = 0 })
-Taken(pre, post, v) == (pre.vals[v].token - post.vals[v].token) + (Pending(pre.wq, v) - Pending(post.wq, v))
+\* what a block took from the unfinished withdraw records of v: per record (identified by validator, delegator, initial
+\* balance, completion height) the decrease of its balance.  A record that is released at the end of the block (finished,
+\* balance unchanged) lost nothing; a record that disappeared was emptied, unless it was mature and thus released.
+SameRec(a, b) == a[1] = b[1] /\ a[2] = b[2] /\ a[5] = b[5] /\ a[6] = b[6]
+PostFin(r, postq, blockNo) == IF \E j \in DOMAIN postq : SameRec(postq[j], r) THEN postq[CHOOSE j \in DOMAIN postq : SameRec(postq[j], r)][3]
+                              ELSE IF r[6] < blockNo THEN r[3] ELSE 0
+RECURSIVE SumTaken(_, _, _, _)
+SumTaken(q, T, postq, blockNo) == IF T = {} THEN 0 ELSE LET i == CHOOSE x \in T : TRUE IN
+                                     (q[i][3] - PostFin(q[i], postq, blockNo)) + SumTaken(q, T \ {i}, postq, blockNo)
+TakenW(pre, post, v) == SumTaken(pre.wq, { i \in DOMAIN pre.wq : pre.wq[i][1] = v /\ pre.wq[i][4] = 0 }, post.wq, pre.blockNo)
+Taken(pre, post, v) == (pre.vals[v].token - post.vals[v].token) + TakenW(pre, post, v)
 Penalised(pre, post, v) == \/ Taken(pre, post, v) > 0
                            \/ (post.vals[v].expelled /\ ~pre.vals[v].expelled)
                            \/ post.vals[v].status # pre.vals[v].status
@@ -73,17 +84,17 @@ Fail(e) ==
    \* "No double-sign evidence that can be assembled from the votes an honest validator emits is ever accepted, so a validator
    \*  that follows the protocol never loses stake or gets expelled for double-signing"
    { <<"HonestNeverSlashable", HonestDisc(v, e), l>> :
-        v \in { x \in 1..NV : Honest(x, e.all) /\ \E p \in Paths : Penalised(e.pre, PostOf(e, p), x) } }
+        v \in { x \in 1..NV : Honest(x, e.all) /\ \E p \in Paths : Penalised(PreOf(e), PostOf(e, p), x) } }
    \cup
    \* "Evidence of two different same-kind votes by one validator in one round/index is accepted by block builder and block
    \*  validator alike, penalises that validator"
    { <<"RealEquivocationAccepted", {e.all[i].kind} \cup (IF e.pre.vals[e.all[i].target].exists THEN {} ELSE {"removed_since_lookback"})
                                    \cup { p \in Paths : ~(PostOf(e, p).vals[e.all[i].target].expelled
                                                                             /\ PostOf(e, p).vals[e.all[i].target].status = 0
-                                                                            /\ Taken(e.pre, PostOf(e, p), e.all[i].target) > 0) }, l>> :
+                                                                            /\ Taken(PreOf(e), PostOf(e, p), e.all[i].target) > 0) }, l>> :
         i \in { n \in DOMAIN e.all : RealEquivocation(e.all[n], e)
                                      /\ \E p \in Paths : LET post == PostOf(e, p) v == e.all[n].target IN
-                                           ~(post.vals[v].expelled /\ post.vals[v].status = 0 /\ Taken(e.pre, post, v) > 0) } }
+                                           ~(post.vals[v].expelled /\ post.vals[v].status = 0 /\ Taken(PreOf(e), post, v) > 0) } }
    \cup
    \* "penalises that validator once"
    { <<"SlashedOnce", {"per_block"}, l>> : v \in { x \in 1..NV : CountFor(Logs(e, "sealLogs"), x) > 1 \/ CountFor(Logs(e, "rawLogs"), x) > 1 } }
@@ -91,7 +102,7 @@ Fail(e) ==
    \* "and never takes more than the configured fraction of its stake and pending withdrawals"
    { <<"PenaltyBounded", {p}, l>> :
         p \in { q \in Paths : \E v \in 1..NV :
-                   Taken(e.pre, PostOf(e, q), v) > (e.frac * (e.pre.vals[v].token + Pending(e.pre.wq, v))) \div 100 } }
+                   Taken(PreOf(e), PostOf(e, q), v) > (e.frac * (e.pre.vals[v].token + Pending(e.pre.wq, v))) \div 100 } }
    \cup
    \* "accepted by block builder and block validator alike"
    (IF e.impErr # "" THEN { <<"BuilderEqualsValidator", {"import_rejected"}, l>> } ELSE {})
@@ -102,7 +113,7 @@ Count(e) == [c \in Clauses |->
    CASE c = "HonestNeverSlashable" -> Cardinality({ v \in 1..NV : Honest(v, e.all) /\ Accused(v, e) })
      [] c = "RealEquivocationAccepted" -> Cardinality({ n \in DOMAIN e.all : RealEquivocation(e.all[n], e) })
      [] c = "SlashedOnce" -> Cardinality({ v \in 1..NV : CountFor(Logs(e, "sealLogs"), v) > 0 })
-     [] c = "PenaltyBounded" -> Cardinality({ v \in 1..NV : Taken(e.pre, e.seal, v) > 0 })
+     [] c = "PenaltyBounded" -> Cardinality({ v \in 1..NV : Taken(PreOf(e), e.seal, v) > 0 })
      [] OTHER -> 1]
 
 Init == l = 1 /\ viol = {} /\ fired = [c \in Clauses |-> 0]
